@@ -94,7 +94,7 @@ def parse_fields(body):
         if not m:
             raise ValueError("cannot parse field %r" % p)
         ty = norm_type(m.group(3))
-        attrs = [a for a in attrs if not a.startswith("#[doc") and not a.startswith("#[allow")]
+        attrs = [a for a in attrs if a.startswith("#[serde(")]
         fields.append([m.group(2), ty + ("".join(" " + a for a in attrs))])
     return fields
 
@@ -146,7 +146,7 @@ def parse_enum(text, name):
             r = re.search(r'serde\(\s*rename\s*=\s*"([^"]+)"', attr)
             if r:
                 rename = r.group(1)
-            elif not attr.startswith("#[returns") and not attr.startswith("#[doc") and not attr.startswith("#[allow"):
+            elif attr.startswith("#[serde("):
                 extra.append(re.sub(r"\s+", "", attr))
             p = p[j + 1:].strip()
         if not p:
